@@ -126,71 +126,81 @@ def quiet():
 # ------------------------------------------------------------------------------------------
 # Independent evaluator of an exported Stim program
 # ------------------------------------------------------------------------------------------
-PREP_GATES = ("I", "X", "TICK")
+PREP_GATES = ("I", "X", "Y", "TICK")   # computational-basis preparation: identity or a pi rotation
 
 
-def analyse(stim_circuit, n_qubits):
-    """Execute the program with Stim's tableau simulator.
+def analyse(stim_circuit, n_qubits, segmented=False):
+    """Execute the program with Stim's tableau simulator (one continuous run).
 
-    returns dict(meas=[(qubit, value or None if random)], prepared=[bit or None per qubit],
-                 detectors=[(coords, frozenset(abs record indices))], observables={idx: set(abs)})
+    Returns a list of segments (one segment unless ``segmented``; a segment ends after a run of
+    OBSERVABLE_INCLUDE lines).  Each segment is a dict
+        meas        [(qubit, value or None if the outcome is random)]   record of the segment
+        prepared    [bit or None per qubit]  register state at the end of the preparation stage, i.e. after the
+                    maximal run of I / X / TICK that follows the segment's first block of measurements
+        detectors   [(coords, frozenset(record indices relative to the segment start))]
+        observables {idx: set(record indices relative to the segment start)}
+        n_ops       number of non-annotation instructions
     """
     import stim
     flat = stim_circuit.flattened()
     sim = stim.TableauSimulator()
-    if n_qubits:
-        sim.set_num_qubits(max(n_qubits, flat.num_qubits))
-    meas = []
-    detectors = []
-    observables = {}
-    prepared = None
-    stage = 0  # 0: before heralding measurements, 1: inside them, 2: preparation gates, 3: rest
+    sim.set_num_qubits(max(n_qubits, flat.num_qubits, 1))
 
-    def peek_all():
-        out = []
-        for q in range(n_qubits):
-            z = sim.peek_z(q)
-            out.append(None if z == 0 else (0 if z > 0 else 1))
-        return out
+    def peek(q):
+        z = sim.peek_z(q)
+        return None if z == 0 else (0 if z > 0 else 1)
 
+    def new_segment():
+        return {"meas": [], "prepared": None, "detectors": [], "observables": {}, "stage": 0, "n_ops": 0, "in_obs": False}
+
+    segments = []
+    seg = new_segment()
     for ins in flat:
         name = ins.name
-        if stage == 0 and name == "M":
-            stage = 1
-        elif stage == 1 and name != "M":
-            stage = 2
-        if stage == 2 and name not in PREP_GATES:
-            prepared = peek_all()
-            stage = 3
+        if segmented and seg["in_obs"] and name != "OBSERVABLE_INCLUDE":
+            segments.append(seg)
+            seg = new_segment()
+        # stage: 0 before the heralding measurements, 1 inside them, 2 preparation gates, 3 rest
+        if seg["stage"] == 0 and name == "M":
+            seg["stage"] = 1
+        elif seg["stage"] == 1 and name != "M":
+            seg["stage"] = 2
+        if seg["stage"] == 2 and name not in PREP_GATES:
+            seg["prepared"] = [peek(q) for q in range(n_qubits)]
+            seg["stage"] = 3
+        meas = seg["meas"]
         if name == "M":
+            seg["n_ops"] += 1
             for t in ins.targets_copy():
                 q = t.value
-                z = sim.peek_z(q)
-                meas.append((q, None if z == 0 else (0 if z > 0 else 1)))
+                meas.append((q, peek(q)))
                 sim.do(stim.CircuitInstruction("M", [q]))
         elif name == "DETECTOR":
             idx = set()
             for t in ins.targets_copy():
-                a = len(meas) + t.value
-                if a < 0:
-                    raise ValueError("detector looks back before the first measurement")
-                idx ^= {a}
-            detectors.append((tuple(ins.gate_args_copy()), frozenset(idx)))
+                k = len(meas) + t.value
+                if k < 0:
+                    raise ValueError("detector looks back before the first measurement of the experiment")
+                idx ^= {k}
+            seg["detectors"].append((tuple(ins.gate_args_copy()), frozenset(idx)))
         elif name == "OBSERVABLE_INCLUDE":
-            k = int(ins.gate_args_copy()[0])
-            cur = observables.setdefault(k, set())
+            seg["in_obs"] = True
+            cur = seg["observables"].setdefault(int(ins.gate_args_copy()[0]), set())
             for t in ins.targets_copy():
-                a = len(meas) + t.value
-                if a < 0:
-                    raise ValueError("observable looks back before the first measurement")
-                cur ^= {a}
+                k = len(meas) + t.value
+                if k < 0:
+                    raise ValueError("observable looks back before the first measurement of the experiment")
+                cur ^= {k}
         elif name in ("TICK", "SHIFT_COORDS", "QUBIT_COORDS"):
             pass
         else:
+            seg["n_ops"] += 1
             sim.do(ins)
-    if prepared is None:
-        prepared = peek_all()
-    return {"meas": meas, "prepared": prepared, "detectors": detectors, "observables": observables}
+    segments.append(seg)
+    for sg in segments:
+        if sg["prepared"] is None:
+            sg["prepared"] = [peek(q) for q in range(n_qubits)] if sg is segments[-1] else [None] * n_qubits
+    return segments
 
 
 def prescribed_record(names, data, anc, cycles, refocus):
@@ -241,9 +251,42 @@ def cyc_bucket(c):
     return str(c) if c <= 3 else ">=4"
 
 
-def check_export(stim_circuit, names, index_of, data, anc, cycles, refocus, desc_function, relative_time=False):
-    """All clauses of the statement on ONE exported program.  Returns (n_evaluations, [failure dict without witness])."""
+def determinism_failures(stim_circuit):
+    """Stim's own verdict on detector / observable determinism of a whole program: [(key suffix, clause, observed)]"""
+    import numpy as np
+    out = []
+    try:
+        stim_circuit.detector_error_model()
+    except Exception as exc:
+        out.append(("stim-rejects:detectors-or-observable",
+                    "all detectors and the logical observable are deterministic (Stim's detector_error_model accepts)",
+                    str(exc).split("\n")[0][:200]))
+        return out
+    dd, oo = stim_circuit.compile_detector_sampler(seed=1).sample(16, separate_observables=True)
+    if np.any(dd):
+        out.append(("detector-sampler-flips", "detectors deterministic in 16 noiseless shots", int(np.sum(dd))))
+    if np.any(oo):
+        out.append(("observable-sampler-flips", "observable deterministic in 16 noiseless shots", int(np.sum(oo))))
+    return out
+
+
+def check_export(stim_circuit, names, index_of, data, anc, cycles, refocus, desc_function):
+    """All clauses of the statement on ONE exported program.  Returns ({clause: evaluations}, [failure dicts])."""
+    try:
+        an = analyse(stim_circuit, max(index_of.values()) + 1)[0]
+    except Exception as exc:  # e.g. look-back before the start of the record
+        return {"export": 1}, [{"key": "C09:export:not-executable:%s" % type(exc).__name__,
+                                "clause": "the exported circuit can be executed",
+                                "function": "to_stim/construct_repetition_code_circuit", "observed": repr(exc)[:300],
+                                "required": "executable Stim program"}]
+    return check_analysis(an, stim_circuit, names, index_of, data, anc, cycles, refocus, desc_function)
+
+
+def check_analysis(an, stim_circuit, names, index_of, data, anc, cycles, refocus, desc_function, relative_time=False):
+    """``an`` = one segment of ``analyse``; ``stim_circuit`` = the whole program if the segment is the whole program
+    (then Stim's determinism verdict is taken here), else None."""
     fails = []
+    evals = {"prepare": 0, "record": 0, "determinism": 0, "targets": 0}
 
     def fail(key, clause, function, observed, required):
         fails.append({"key": key, "clause": clause, "function": function, "observed": observed, "required": required})
@@ -251,19 +294,12 @@ def check_export(stim_circuit, names, index_of, data, anc, cycles, refocus, desc
     n = len(names)
     d = (n + 1) // 2
     pos_of_index = {index_of[nm]: p for p, nm in enumerate(names)}
-    evals = 0
-    try:
-        an = analyse(stim_circuit, max(index_of.values()) + 1)
-    except Exception as exc:  # e.g. look-back before the start of the record
-        fail("C09:export:not-executable:%s" % type(exc).__name__, "the exported circuit can be executed",
-             "to_stim/construct_repetition_code_circuit", repr(exc)[:300], "executable Stim program")
-        return 1, fails
 
     x = list(data) if data is not None else [0] * d
     a = list(anc) if anc is not None else [0] * (d - 1)
 
     # ---- clause: every requested initial state is actually prepared --------------------------
-    evals += 1
+    evals["prepare"] += 1
     prep = an["prepared"]
     prep_x = [prep[index_of[names[2 * i]]] for i in range(d)]
     prep_a = [prep[index_of[names[2 * i + 1]]] for i in range(d - 1)]
@@ -275,9 +311,9 @@ def check_export(stim_circuit, names, index_of, data, anc, cycles, refocus, desc
             break
     for i in range(d - 1):
         if prep_a[i] != a[i]:
-            if prep_a[i] == x[i]:
-                cls = "ancilla-prepared-from-data-state-of-same-position"
-            elif prep_a[i] == 0:
+            if prep_a == x[:d - 1] and prep_x == x:
+                cls = "ancilla-prepared-from-data-state-of-same-position"   # the whole ancilla register repeats the data states
+            elif not any(prep_a):
                 cls = "requested-one-left-in-zero"
             else:
                 cls = "other"
@@ -287,7 +323,7 @@ def check_export(stim_circuit, names, index_of, data, anc, cycles, refocus, desc
             break
 
     # ---- clause: exact measurement record -----------------------------------------------------
-    evals += 1
+    evals["record"] += 1
     meas = an["meas"]
     recs = {}
     foreign = [q for q, _ in meas if q not in pos_of_index]
@@ -330,7 +366,8 @@ def check_export(stim_circuit, names, index_of, data, anc, cycles, refocus, desc
             want_prep = prescribed_record(names, prep_x, prep_a, cycles, refocus) \
                 if None not in prep_x and None not in prep_a else None
             if want_prep is not None and got == want_prep:
-                fail("C09:record:differs-exactly-as-implied-by-the-unprepared-initial-state",
+                which = "ancilla" if prep_x == x else ("data" if prep_a == a else "data+ancilla")
+                fail("C09:record:differs-exactly-as-implied-by-the-unprepared-%s-state" % which,
                      "noiseless execution yields exactly the prescribed record for the REQUESTED states",
                      "construct_repetition_code_circuit", got, want)
             else:
@@ -346,43 +383,22 @@ def check_export(stim_circuit, names, index_of, data, anc, cycles, refocus, desc
                       "relative_to": "prepared states" if want_prep is not None else "requested states"}, ref)
 
     # ---- clause: number and determinism of detectors and observable ---------------------------------
-    evals += 1
+    evals["determinism"] += 1
     dets = an["detectors"]
     need = (d - 1) * (cycles + 1)
-    if len(dets) != need or stim_circuit.num_detectors != need:
+    if len(dets) != need or (stim_circuit is not None and stim_circuit.num_detectors != need):
         fail("C09:detectors:count:cycles=%s" % cyc_bucket(cycles), "(d-1)(cycles+1) detectors",
              "construct_repetition_code_circuit/get_circuit_qec_with_detectors", len(dets), need)
     obs = an["observables"]
-    if sorted(obs.keys()) != [0] or stim_circuit.num_observables != 1:
+    if sorted(obs.keys()) != [0] or (stim_circuit is not None and stim_circuit.num_observables != 1):
         fail("C09:observable:count", "exactly one logical observable (index 0)",
              "construct_repetition_code_circuit", sorted(obs.keys()), [0])
-    try:
-        stim_circuit.detector_error_model()
-        dem_err = None
-    except Exception as exc:
-        dem_err = str(exc).split("\n")[0][:200]
-    if dem_err is not None:
-        which = "detectors-or-observable"
-        fail("C09:determinism:stim-rejects:%s" % which,
-             "all detectors and the logical observable are deterministic (Stim's detector_error_model accepts)",
-             "construct_repetition_code_circuit", dem_err, "no error")
-    else:
-        import numpy as np
-        dd, oo = stim_circuit.compile_detector_sampler(seed=1).sample(16, separate_observables=True)
-        if np.any(dd):
-            fail("C09:determinism:detector-sampler-flips", "detectors deterministic in 16 noiseless shots",
-                 "construct_repetition_code_circuit", int(np.sum(dd)), 0)
-        if np.any(oo):
-            fail("C09:determinism:observable-sampler-flips", "observable deterministic in 16 noiseless shots",
-                 "construct_repetition_code_circuit", int(np.sum(oo)), 0)
-    # own evaluation: a parity of deterministic outcomes
-    for k, (coords, idx) in enumerate(dets):
-        if any(meas[j][1] is None for j in idx):
-            # not necessarily random (parities can be deterministic) - Stim's verdict above decides
-            pass
+    if stim_circuit is not None:
+        for suffix, clause, observed in determinism_failures(stim_circuit):
+            fail("C09:determinism:%s" % suffix, clause, "construct_repetition_code_circuit", observed, "deterministic")
 
     # ---- clause (stronger reading): which record entries the detectors / the observable compare -------------
-    evals += 1
+    evals["targets"] += 1
     if structure_ok and len(dets) == need:
         want_d = prescribed_detectors(recs, d, cycles)
         seen = {}
@@ -437,9 +453,17 @@ def desc_function_name(spec):
     return "RepetitionCodeDescription.get_operations/InitialStateContainer.get_data_qubit_operation"
 
 
+def add_evals(res, ev, variant):
+    for k, v in ev.items():
+        res["evals"] += v
+        res["per"][k] = res["per"].get(k, 0) + v
+        if variant != "as-built":
+            res["per"]["variants"] = res["per"].get("variants", 0) + v
+
+
 def run_case(case):
     """case = {"desc": spec, "data": [..]|None, "anc": [..]|None, "cycles": int}"""
-    res = {"evals": 0, "fails": [], "skipped": None, "nontrivial": False, "case": case}
+    res = {"evals": 0, "per": {}, "fails": [], "skipped": None, "nontrivial": False, "case": case}
     spec, data, anc, cycles = case["desc"], case["data"], case["anc"], case["cycles"]
     names = involved_names(spec)
     refocus = spec_refocus(spec)
@@ -484,7 +508,7 @@ def run_case(case):
                                  "required": "a Stim circuit", "witness": dict(case, variant=variant)})
             break
         ev, fails = check_export(sc, names, index_of, data, anc, cycles, refocus, desc_function_name(spec))
-        res["evals"] += ev
+        add_evals(res, ev, variant)
         for f in fails:
             if variant == "as-built":
                 base_keys.add(f["key"])
@@ -495,15 +519,13 @@ def run_case(case):
                 f["clause"] += " [holds for the circuit as built, fails after %s]" % variant
             f["witness"] = dict(case, variant=variant, chain=names)
             res["fails"].append(f)
-        if variant == "as-built" and case.get("keep_text"):
-            res["text"] = str(sc)
     return res
 
 
 def run_multi_case(case):
     """construct_repetition_code_multi_round_circuit: every segment must run the protocol.
     case = {"desc": spec, "data":..., "anc":..., "rounds": [c1, c2, ...]}"""
-    res = {"evals": 0, "fails": [], "skipped": None, "nontrivial": True, "case": case}
+    res = {"evals": 0, "per": {}, "fails": [], "skipped": None, "nontrivial": True, "case": case}
     spec, data, anc, rounds = case["desc"], case["data"], case["anc"], case["rounds"]
     names = involved_names(spec)
     refocus = spec_refocus(spec)
@@ -529,38 +551,48 @@ def run_multi_case(case):
                              "function": "construct_repetition_code_multi_round_circuit", "observed": repr(exc)[:300],
                              "required": "a circuit", "witness": case})
         return res
-    # cut the flattened program into the segments: a segment ends with its OBSERVABLE_INCLUDE lines
-    flat = sc.flattened()
-    segments, cur, in_obs = [], stim.Circuit(), False
-    for ins in flat:
-        if in_obs and ins.name != "OBSERVABLE_INCLUDE":
-            segments.append(cur)
-            cur, in_obs = stim.Circuit(), False
-        cur.append(ins)
-        if ins.name == "OBSERVABLE_INCLUDE":
-            in_obs = True
-    tail = cur  # calibration part (not a repetition-code experiment)
-    if in_obs:
-        segments.append(cur)
-        tail = stim.Circuit()
+    # one continuous execution, cut into the experiments (an experiment ends with its OBSERVABLE_INCLUDE lines);
+    # what follows the last one is the calibration part (not a repetition-code experiment)
     res["evals"] += 1
-    if len(segments) != len(rounds) or tail.num_detectors or tail.num_observables:
+    res["per"]["multi"] = 1
+    try:
+        segs = analyse(sc, max(index_of.values()) + 1, segmented=True)
+    except Exception as exc:
+        res["fails"].append({"key": "C09:multi-round:export:not-executable:%s" % type(exc).__name__,
+                             "clause": "the exported circuit can be executed",
+                             "function": "construct_repetition_code_multi_round_circuit", "observed": repr(exc)[:300],
+                             "required": "executable Stim program", "witness": case})
+        return res
+    tail = segs[-1] if not segs[-1]["in_obs"] else None
+    exps = segs[:-1] if tail is not None else segs
+    if len(exps) != len(rounds) or (tail is not None and (tail["detectors"] or tail["observables"])):
         res["fails"].append({"key": "C09:multi-round:segments", "clause": "one protocol run per requested round count",
                              "function": "construct_repetition_code_multi_round_circuit",
-                             "observed": len(segments), "required": len(rounds), "witness": case})
+                             "observed": len(exps), "required": len(rounds), "witness": case})
         return res
     seen = set()
-    for k, (seg, cycles) in enumerate(zip(segments, rounds)):
-        # strip leading TICK of the separating barrier
-        ev, fails = check_export(seg, names, index_of, data, anc, cycles, refocus, desc_function_name(spec), relative_time=True)
-        res["evals"] += ev
-        for f in fails:
+    fails_all = []
+    for suffix, clause, observed in determinism_failures(sc):
+        fails_all.append((None, {"key": "C09:determinism:%s" % suffix, "clause": clause,
+                                 "function": "construct_repetition_code_multi_round_circuit", "observed": observed,
+                                 "required": "deterministic"}))
+    for k, (seg, cycles) in enumerate(zip(exps, rounds)):
+        ev, fails = check_analysis(seg, None, names, index_of, data, anc, cycles, refocus, desc_function_name(spec),
+                                   relative_time=True)
+        for kk, v in ev.items():
+            res["evals"] += v
+            res["per"]["multi"] += v
+        fails_all.extend((k, f) for f in fails)
+    for k, f in fails_all:
+        # preparation failures have their cause in the description classes, not in this constructor: same key as for
+        # the single-experiment constructor; everything else is keyed as multi-round
+        if not (f["key"].startswith("C09:prepare:") or f["key"].startswith("C09:record:differs-exactly-as-implied")):
             f["key"] = f["key"].replace("C09:", "C09:multi-round:", 1)
-            if f["key"] in seen:
-                continue
-            seen.add(f["key"])
-            f["witness"] = dict(case, segment=k, chain=names)
-            res["fails"].append(f)
+        if f["key"] in seen:
+            continue
+        seen.add(f["key"])
+        f["witness"] = dict(case, segment=k, chain=names)
+        res["fails"].append(f)
     return res
 
 
@@ -590,7 +622,7 @@ def enumerate_cases(tier, seed):
     quick = tier == "quick"
     if quick:
         d_exh, cyc_exh = (2, 3), list(range(0, 7))
-        d_exh_short, cyc_short = (), []
+        d_exh_short, cyc_short = (4,), [0, 1, 2, 3, 4]      # all states, refocusing on, cycles 0..4
         d_smp, n_rand, d_big, cyc_big = (4, 5), 2, (6, 7), [0, 1, 2, 3, 4]
         cyc_layout, n_layout_states = [0, 1, 2, 3, 4, 5], 1
     else:
@@ -714,7 +746,7 @@ def run_probes(res):
     except Exception:
         ok = True
     res.probes.append({"assumption": "stim.Circuit.detector_error_model() rejects a non-deterministic detector", "ok": ok})
-    an = analyse(stim.Circuit("R 0 1\nM 0 1\nX 0\nTICK\nH 1\nM 0 1\nDETECTOR(1,0) rec[-2] rec[-4]\n"), 2)
+    an = analyse(stim.Circuit("R 0 1\nM 0 1\nX 0\nTICK\nH 1\nM 0 1\nDETECTOR(1,0) rec[-2] rec[-4]\n"), 2)[0]
     res.probes.append({"assumption": "the evaluator sees prepared state [1,0], outcome 1 deterministic, H-outcome random, "
                                      "detector = absolute entries {0,2}",
                        "ok": an["prepared"] == [1, 0] and an["meas"][2] == (0, 1) and an["meas"][3] == (1, None)
@@ -798,12 +830,9 @@ def main(argv=None):
     for c in cases + multi:
         uniq.setdefault(canon(c), c)
     work = sorted(uniq.values(), key=lambda c: (-cost(c), canon(c)))   # big ones first: better load balance
-    # a few programs are written into the samples
-    for c in work[:1]:
-        c["keep_text"] = False
     run_probes(res)
     n_proc = min(16, os.cpu_count() or 1)
-    per = {"single": 0, "multi": 0}
+    per = {}
     with mp.Pool(n_proc) as pool:
         for out in pool.imap_unordered(dispatch, work, chunksize=4):
             if out.get("skipped"):
@@ -812,30 +841,37 @@ def main(argv=None):
                     sys.stderr.write(out["trace"] + "\n")
                 continue
             res.evaluations += out["evals"]
-            per["multi" if "rounds" in out["case"] else "single"] += out["evals"]
+            for k, v in out.get("per", {}).items():
+                per[k] = per.get(k, 0) + v
             if out["nontrivial"]:
                 res.distinct.add(canon(out["case"]))
             for f in out["fails"]:
                 w = f.pop("witness")
                 old = res.failures.get(f["key"])
                 size = len(json.dumps(w))
-                if old is None or size < old.get("_size", 1 << 30):
+                if old is None or (size, canon(w)) < old["_size"]:
                     res.failures.pop(f["key"], None)
                     res.fail(f["key"], f["clause"], f["function"], w, f.get("observed"), f.get("required"), w)
-                    res.failures[f["key"]]["_size"] = size
+                    res.failures[f["key"]]["_size"] = (size, canon(w))
     for f in res.failures.values():
         f.pop("_size", None)
     res.failures = dict(sorted(res.failures.items()))
-    res.rule = ("inputs of construct_repetition_code_circuit: (description, data states, ancilla states, cycles). "
-                "Exhaustive: from_chain distances %s x all 2^d data states x (ancilla unspecified + all 2^(d-1)) x cycles %d..%d x "
-                "refocusing on/off; description=None and state-less calls for the same distances (cycles 0..4). "
-                "Sampled (seeded) states: from_chain distances up to 9/7, every contiguous data-to-data sub-chain of "
-                "Repetition9Code, Repetition9Round6Code, Repetition5Round4Code in both directions x refocusing x cycles 0..%d "
-                "(all states for the shortest ones); CompositeRepetitionCodeDescription around d=2,3 chains (all states, "
-                "cycles 0..4); multi-round constructor with <=3 distinct round counts <=5. Every input is exported as built, "
-                "after apply_modifiers, and after apply_modifiers+flatten, and each export is evaluated. Non-trivial = at "
-                "least one QEC cycle or at least one requested |1>." % (info["d_exhaustive"], info["cycles_exhaustive"][0],
-                                                                      info["cycles_exhaustive"][1], info["layout_cycles_max"]))
+    res.rule = (
+        "input = (description, data states, ancilla states, cycles) of construct_repetition_code_circuit; tier %s. "
+        "(1) EXHAUSTIVE: RepetitionCodeDescription.from_chain distances %s x all 2^d data states x (ancilla unspecified + all "
+        "2^(d-1) ancilla states) x cycles %d..%d x refocusing on/off%s; description=None (from_initial_state) and calls without "
+        "any requested state for d=2,3, cycles 0..4. (2) SAMPLED states (seeded; all-zero, all-one, alternating + random): "
+        "from_chain distances %s. (3) every contiguous data-to-data sub-chain (82) of Repetition9Code, Repetition9Round6Code, "
+        "Repetition5Round4Code through from_connectivity, %s, cycles 0..%d, random states. (4) CompositeRepetitionCodeDescription "
+        "around d=2,3 layout sub-chains, all states. (5) construct_repetition_code_multi_round_circuit with lists of <=3 distinct "
+        "round counts <=5 (d=3). Every input of (1)-(4) is exported three times (as built, after apply_modifiers, after "
+        "apply_modifiers+flatten) and every export is evaluated. Non-trivial = at least one QEC cycle or one requested |1>. "
+        "Not exhaustive: distances, cycles and states beyond these bounds are not visited."
+        % (args.tier, info["d_exhaustive"], info["cycles_exhaustive"][0], info["cycles_exhaustive"][1],
+           ("; distance %s all states, refocusing on, cycles 0..4" % info["d_exhaustive_short"]) if info["d_exhaustive_short"] else "",
+           info["d_sampled"],
+           "two of the four (direction, refocusing) combinations" if args.tier == "quick" else "both directions x refocusing on/off",
+           info["layout_cycles_max"]))
     res.exhaustive = False
     n_single = sum(1 for c in work if "rounds" not in c)
     n_multi = len(work) - n_single
@@ -844,33 +880,37 @@ def main(argv=None):
                      "InitialStateContainer.get_*_operation (via construct_repetition_code_circuit)",
          "contract": "clause 'every requested data and ancilla initial state is actually prepared': the register state Stim "
                      "reports (peek_z) at the end of the preparation stage equals the requested bits (unrequested = 0)",
-         "bound": "%d constructor inputs x 3 exports" % n_single, "evaluations": per["single"] // 4},
+         "bound": "%d constructor inputs x 3 exports" % n_single, "evaluations": per.get("prepare", 0)},
         {"function": "construct_repetition_code_circuit + to_stim",
          "contract": "clause 'exact record': every outcome deterministic (TableauSimulator.peek_z != 0); heralding block of "
                      "zeros; per cycle every ancilla = a xor c*(x_i xor x_(i+1)); data = x xor (cycles-1 refocusing flips if "
                      "refocusing); block structure of the record",
-         "bound": "same inputs", "evaluations": per["single"] // 4},
+         "bound": "same inputs", "evaluations": per.get("record", 0)},
         {"function": "construct_repetition_code_circuit / get_circuit_qec_with_detectors",
          "contract": "clause 'all (d-1)(cycles+1) detectors and the logical observable are deterministic': counts, Stim "
                      "detector_error_model() accepts, 16 noiseless detector-sampler shots without a flip",
-         "bound": "same inputs", "evaluations": per["single"] // 4},
+         "bound": "same inputs", "evaluations": per.get("determinism", 0)},
         {"function": "get_circuit_qec_with_detectors / DetectorOperation offsets (1/2/3 sub-circuit split)",
          "contract": "stronger reading of 'detectors': detector (a, cycle c) compares exactly m_c (c<=2) or m_c, m_(c-2); the "
                      "final one the two neighbouring data outcomes and the last syndrome; observable within final data "
                      "outcomes (an offset error keeps a detector 'deterministic' on computational inputs, so the literal "
                      "clause cannot see it)",
-         "bound": "same inputs", "evaluations": per["single"] // 4},
+         "bound": "same inputs", "evaluations": per.get("targets", 0)},
         {"function": "DeclarativeCircuit.apply_modifiers / flatten (clause 'equally after unrolling and after flattening')",
-         "contract": "all four clauses above re-evaluated on the export of the unrolled and of the unrolled+flattened circuit",
-         "bound": "same inputs", "evaluations": 2 * (per["single"] // 3)},
+         "contract": "all four clauses above re-evaluated on the export of the unrolled and of the unrolled+flattened circuit "
+                     "(these evaluations are included in the four counts above)",
+         "bound": "same inputs", "evaluations": per.get("variants", 0)},
         {"function": "construct_repetition_code_multi_round_circuit",
-         "contract": "every segment (cut at its OBSERVABLE_INCLUDE lines) satisfies the four clauses for its round count",
-         "bound": "%d round lists" % n_multi, "evaluations": per["multi"]},
+         "contract": "one continuous Stim execution of the whole program; every experiment in it (cut at its "
+                     "OBSERVABLE_INCLUDE lines) satisfies the four clauses for its round count; Stim accepts the whole program",
+         "bound": "%d round lists (d=3)" % n_multi, "evaluations": per.get("multi", 0)},
     ]
     # samples
-    for c in work[:3] + work[len(work) // 2: len(work) // 2 + 2]:
-        res.samples.append({"input": {k: v for k, v in c.items() if k != "keep_text"},
-                            "checked": "prepared state, exact record, detector/observable count + determinism, detector targets; x3 exports"})
+    step = max(1, len(work) // 6)
+    for c in work[::step][:7]:
+        res.samples.append({"input": c, "checked": "prepared state, exact record, detector/observable count + determinism, "
+                                                   "detector targets" + ("; per experiment of the program" if "rounds" in c
+                                                                         else "; on 3 exports")})
     res.write(args.out)
     print(json.dumps({"evaluations": res.evaluations, "distinct_nontrivial": len(res.distinct), "inputs": len(work),
                       "failures": list(res.failures.keys()), "skipped": res.skipped}, indent=1))
@@ -882,7 +922,7 @@ def replay(path):
     if isinstance(rec.get("failure"), dict):  # driver may nest the record
         ra = rec["failure"].get("replay_args") or rec["failure"].get("witness") or ra
         rec = rec["failure"]
-    key = rec.get("key", "")
+    key = rec.get("key") or rec.get("obligation") or rec.get("id") or ""
     case = {k: ra[k] for k in ("desc", "data", "anc") if k in ra}
     if "rounds" in ra:
         case["rounds"] = ra["rounds"]
